@@ -77,7 +77,7 @@ Theorem gen_winner_invariant g p : wf p -> 1 <= size p -> In g syms ->
 Proof.
   intros Hwf Hn Hg. exists (Symmetry.transform_position g p).
   split; [apply gen_transform_position_eq; assumption|].
-  rewrite !gen_winner_eq, (winner_invariant g p Hwf Hg). repeat split.
+  rewrite (gen_winner_ok p Hwf), (gen_winner_ok _ (tp_wf g p Hwf)), (winner_invariant g p Hwf Hg). repeat split.
 Qed.
 
 (* symmetries(pos), translated: a list (no exception) that starts with (identity, pos), whose positions are pairwise
